@@ -159,16 +159,26 @@ impl UserPref {
                     return Err(anyhow::anyhow!("Failed to create directory: {}", e));
                 }
             }
+            // 書き込み途中で終了しても保存済みのデータが壊れないよう、一時ファイルに書いてからrenameする
             let path = dir.join(USER_FREQUENCY_NAME);
-            let mut file = std::fs::File::create(path)?;
+            let tmp_path = dir.join(format!("{}.tmp", USER_FREQUENCY_NAME));
+            let mut file = std::fs::File::create(&tmp_path)?;
             let bytes = postcard::to_allocvec(&self.frequency)?;
             file.write_all(&bytes)?;
+            file.sync_all()?;
+            drop(file);
+            fs::rename(&tmp_path, path)?;
 
             let path = dir.join(USER_DICTIONARY_NAME);
-            let file = std::fs::File::create(path)?;
+            let tmp_path = dir.join(format!("{}.tmp", USER_DICTIONARY_NAME));
+            let file = std::fs::File::create(&tmp_path)?;
 
-            let mut writer = StandardDictionaryWriter::new(file);
+            let mut writer = StandardDictionaryWriter::new(&file);
             writer.write_all(&self.user_dictionary)?;
+            file.sync_all()?;
+            drop(writer);
+            drop(file);
+            fs::rename(&tmp_path, path)?;
         }
         Ok(())
     }
